@@ -55,6 +55,8 @@ JOBS = {
     "dec-fail": ("decoder", "[C][O][C][Foo]", {}),
     "enc-nonstrict": ("encoder", "C(F)(F)(F)(F)F", {"strict": False}),
     "enc-fail": ("encoder", "N1CC(C", {}),
+    "enc-blossoms": ("encoder", "c23c1ccc3cccccccc2ccc1", {}),       # several odd cycles are contracted within one augmenting-path search
+    "enc-3blossoms": ("encoder", "c12c3cc4c3c4c1c2", {}),             # the smallest chain+chords system with three contractions in one search
 }
 PAIRS = [("dec-Si-a", "dec-Si-b"), ("dec-Si-a", "dec-SiH"), ("dec-ring-a", "dec-ring-b"),
          ("dec-branch-frag", "dec-branch2"), ("enc-ring-Si", "dec-ring-b"), ("enc-pyridine", "enc-pyrrole"),
@@ -99,6 +101,44 @@ def plan(tier, seed):
         for first in (0, 1):
             for c in range(NCHUNK):
                 tasks.append(("pairs/line/bound1/after-history", ("h1", p, first, c, NCHUNK, "line")))
+    # partial-order reduction: scheduling points only at the lines that touch state shared between calls (sched_explorer.
+    # shared_points); a switch anywhere else commutes.  With a few dozen points per call, preemption bound 2 (thorough: 3) is
+    # affordable for every pair, also the long encoder calls
+    sp = PAIRS + [("enc-blossoms", "enc-blossoms"), ("enc-blossoms", "enc-oddfused-a"), ("dec-compat", "dec-compat"),
+                  ("enc-3blossoms", "enc-3blossoms")]
+    bs = 3 if thorough else 2
+    scopes.append({"name": "pairs/shared-points/bound%d" % bs, "pairs": sp, "granularity": "LINE restricted to shared-state lines",
+                   "preemptions": "<= %d" % bs})
+    for p in sp:
+        for first in (0, 1):
+            for c in range(4):
+                tasks.append(("pairs/shared-points/bound%d" % bs, ("s%d" % bs, p, first, c, 4, "shared")))
+    if not thorough:
+        sp3 = [("enc-3blossoms", "enc-3blossoms"), ("dec-short-a", "dec-short-b"), ("dec-ring-a", "dec-ring-b"), ("dec-compat", "dec-legacy-noflag")]
+        scopes.append({"name": "pairs/shared-points/bound3", "pairs": sp3, "granularity": "LINE restricted to shared-state lines",
+                       "preemptions": "<= 3"})
+        for p in sp3:
+            for first in (0, 1):
+                for c in range(8):
+                    tasks.append(("pairs/shared-points/bound3", ("s3", p, first, c, 8, "shared")))
+    if not thorough:
+        aba = [("enc-blossoms", "enc-blossoms", "enc-blossoms"), ("dec-ring-a", "dec-ring-a", "dec-ring-a")]
+        scopes.append({"name": "triples/shared-points/delayed-writer", "triples": aba, "granularity": "LINE restricted to shared-state lines",
+                       "schedules": "(X,k1),(Y,k2 or to completion),(V,k3),(X,k4<=3), then V, Y, X to completion; every k1,k2,k3 <= 8 "
+                                    "(the thorough tier removes that limit)", "preemptions": "<= 4"})
+        for t in aba:
+            for c in range(8):
+                tasks.append(("triples/shared-points/delayed-writer", ("aba8", t, 0, c, 8, "shared")))
+    if thorough:
+        # the lost-update / ABA shape needs three threads: X reads shared state and is delayed while Y and then V make progress,
+        # X then performs its write and stops, V goes on.  Identical jobs, so the thread roles need not be permuted.
+        aba = [("enc-blossoms", "enc-blossoms", "enc-blossoms"), ("dec-ring-a", "dec-ring-a", "dec-ring-a")]
+        scopes.append({"name": "triples/shared-points/delayed-writer", "triples": aba, "granularity": "LINE restricted to shared-state lines",
+                       "schedules": "(X,k1),(Y,k2 or to completion),(V,k3),(X,k4<=3), then V, Y, X to completion; every k1,k2,k3",
+                       "preemptions": "<= 4"})
+        for t in aba:
+            for c in range(32):
+                tasks.append(("triples/shared-points/delayed-writer", ("aba", t, 0, c, 32, "shared")))
     tr = TRIPLES if thorough else TRIPLES[:1]
     scopes.append({"name": "triples/line/bound1", "triples": tr, "granularity": "LINE", "preemptions": "<= 1"})
     for t in tr:
@@ -107,7 +147,7 @@ def plan(tier, seed):
                 tasks.append(("triples/line/bound1", ("t1", t, first, c, NCHUNK, "line")))
     return {"scopes": scopes, "tasks": tasks,
             "bounds": {"threads": "2 (3 in triples)", "preemption_bound": 2, "jobs": {k: list(v[:2]) for k, v in JOBS.items()}},
-            "weight": lambda t: {"b2": 3, "t1": 2}.get(t[1][0], 1) + (2 if t[1][-1] == "instruction" else 0)}
+            "weight": lambda t: {"b2": 3, "t1": 2, "s3": 4, "s2": 2, "aba": 5, "aba8": 2}.get(t[1][0], 1) + (2 if t[1][-1] == "instruction" else 0)}
 
 
 _SF = None
@@ -253,7 +293,37 @@ def run(task):
     _RESET[0] = restore_then_history if kind == "h1" else None
     if kind == "h1":
         kind = "b1"
-    if kind in ("b1", "b2"):
+    if kind in ("aba", "aba8"):
+        _, steps0 = run_one(names, [(0, None)], r, tail=[1, 2])
+        lim = 9 if kind == "aba8" else 10 ** 9
+        E = min(steps0[0], lim)
+        for k1 in [k for k in range(1, E) if k % nchunk == c]:
+            for k2 in list(range(0, min(steps0[1] + 2, lim), 1)) + [None]:
+                for k3 in range(1, min(steps0[2] + 2, lim)):
+                    for k4 in (1, 2, 3):
+                        run_one(names, [(0, k1), (1, k2), (2, k3), (0, k4)], r, tail=[2, 1, 0], post=False)
+                        r.states += 1
+        if c == 0:
+            r.sample({"scope": scope, "jobs": [list(JOBS[x][:2]) for x in names], "shared_state_events_per_thread": list(steps0)}, 1)
+    elif kind in ("s2", "s3"):
+        other = 1 - first
+        _, steps0 = run_one(names, [(first, None)], r, tail=[other])
+        L = steps0[first]
+        for k in [k for k in range(L) if k % nchunk == c]:
+            res, st = run_one(names, [(first, k), (other, None)], r, tail=[first])
+            r.states += 1
+            for k2 in range(st[other]):
+                res2, st2 = run_one(names, [(first, k), (other, k2), (first, None)], r, tail=[other], post=(k2 % 4 == 0))
+                r.states += 1
+                if kind == "s3":
+                    for k3 in range(max(0, st2[first] - k)):
+                        run_one(names, [(first, k), (other, k2), (first, k3), (other, None)], r, tail=[first], post=False)
+                        r.states += 1
+        if c == 0:
+            r.sample({"scope": scope, "jobs": [list(JOBS[x][:2]) for x in names], "shared_state_events_per_thread": list(steps0),
+                      "scheduling_points": len(S._POINTS[0] or ())}, 1)
+        r.extra["max_events_per_call"] = max(steps0)
+    elif kind in ("b1", "b2"):
         other = 1 - first
         # bound 0 from this starting thread (gives the event count of `first` when it starts on a cold library)
         _, steps0 = run_one(names, [(first, None)], r, tail=[other])
